@@ -11,7 +11,7 @@ package main
 //@ import "github.com/go-jose/go-jose/v4/jwt"
 //@ import "github.com/duo-labs/webauthn/webauthn"
 //@ import "github.com/duo-labs/webauthn/protocol"
-//@ use strings nethttp fmt oauth2 neturl time ssh crypto errors x509 keymasterd_jose pwauth cfssl math keymasterd_rate logging
+//@ use strings nethttp fmt oauth2 neturl time ssh crypto errors x509 keymasterd_jose pwauth cfssl math keymasterd_rate logging sync
 
 // ---- C17: post-login redirects stay on the keymaster origin ------------------------------------
 //@ pure func noControlBytes(s string) bool = (forallIdx j int :: 0 <= j && j < len(s) ==> s[j] >= 0x20 && s[j] != 0x7f)
@@ -183,6 +183,34 @@ package main
 //@   results key, userErr, err
 //@   nopanic @C10
 //@   ensures userErr == nil && err == nil ==> key == sshParse(userPubKey) && strongKey(sshCryptoKey(key))   #C10.ssh-validated @C10
+
+// ---- C09: a sealed server signs nothing; only the right passphrase unseals it, once ---------------------------
+// The CA signers are written only while state.Mutex is held; taking the mutex forgets what was known about them.
+//@ written_under RuntimeState.Mutex : RuntimeState.Signer RuntimeState.Ed25519Signer  #C09.signer-locked @C09
+// plaintext of an armored, passphrase-protected file (uninterpreted; PGP itself is trusted)
+//@ ghost func pgpPlaintext(cipherText []byte, password []byte) []byte
+//@ func pgpDecryptFileData
+//@   assume ret1 == nil ==> same(ret0, pgpPlaintext(cipherText, password))
+//@   modifies nothing
+//@ func (*RuntimeState).loadSignersFromPemData
+//@   requires held(&state.Mutex)                                                   #C09.load-locked @C09
+//@   requires state.Signer == nil                                                  #C09.load-once @C09
+//@   ensures ret0 != nil ==> state.Signer == nil                                   #C09.failed-load-stays-sealed @C09
+//@   ensures ret0 == nil ==> state.Signer != nil                                   #C09.loaded @C09
+//@ func (*RuntimeState).tryLoadAndVerifySigners
+//@   atcall (*RuntimeState).loadSignersFromPemData overrides C09.load-locked (st *RuntimeState, signerPem []byte, ed25519Pem []byte) :: true #C09.startup-before-any-listener @C09
+//@   atcall (*RuntimeState).loadSignersFromPemData overrides C09.load-once (st *RuntimeState, signerPem []byte, ed25519Pem []byte) :: true #C09.startup-first-load @C09
+//@ func (*RuntimeState).unsealCA
+//@   atcall (*RuntimeState).loadSignersFromPemData requires (st *RuntimeState, signerPem []byte, ed25519Pem []byte) :: same(signerPem, pgpPlaintext(state.SSHCARawFileContent, password))  #C09.right-passphrase @C09
+//@   ensures ret0 == nil ==> state.Signer != nil                                   #C09.unsealed @C09
+//@ func (*RuntimeState).secretInjectorHandler
+//@   atcall (*RuntimeState).unsealCA requires (st *RuntimeState, password []byte, clientName string) :: r.TLS != nil && len(r.TLS.VerifiedChains) >= 1  #C09.inject-needs-client-cert @C09
+//@ func (*RuntimeState).readyzHandler
+//@   atcall (net/http.ResponseWriter).WriteHeader requires (w2 http.ResponseWriter, code int) :: (code == 200) == (state.Signer != nil) && (code == 200 || code == 503)  #C09.readyz @C09
+//@ func (*RuntimeState).sendFailureToClientIfLocked
+//@   ensures ret0 == (state.Signer == nil)                                          #C09.locked-test @C09
+//@ func (*RuntimeState).isUnsealed
+//@   ensures ret0 == (state.Signer != nil)                                          #C09.unsealed-test @C09
 
 // ---- automation (role-requesting) certificates: C03 45 days, C10 strength, C11 refresh keeps the identity ----
 //@ func (*RuntimeState).parseRoleCertGenParams
